@@ -55,7 +55,7 @@ PROPS = {
     'C01': dict(title='One Established session per peer; well-formed plugin callback history', live=True, lean=['CoreBGP.Props.C01', 'CoreBGP.Props.C09Tie', 'CoreBGP.Props.PathTieC01'],
         rule='union of the live families in which sessions come and go (collision grid + forced windows, state x message table, shutdown at every point, reconnection fault sequences): every trace must be a trace of the L2 transition system (state-set tracking) and pass the plugin-history monitor (prefix of (E+E-(H+H-)*C+C-)*, complete at Close/DeletePeer, GetCapabilities / OnOpenMessage counts)',
         assumptions=['plugin callbacks are atomic enter/exit pairs that always return']),
-    'C11': dict(title='Reconnection liveness and retry pacing after non-damping faults', live=True, lean=['CoreBGP.Props.C11', 'CoreBGP.Props.C11T', 'CoreBGP.Props.DecTieC11'],
+    'C11': dict(title='Reconnection liveness and retry pacing after non-damping faults', live=True, lean=['CoreBGP.Props.C11', 'CoreBGP.Props.C11T', 'CoreBGP.Props.DecTieC11', 'CoreBGP.Props.PathTieC11'],
         rule='live fault sequences (refuse, close / reset / Cease at OpenSent / OpenConfirm / Established, seeded random sequences) followed by a well-behaved remote, idle-hold in {50,100,200} ms, passive and active peers, inbound session ending; pacing monitor on the exits from Idle and on dial timestamps, bound on time-to-Established',
         assumptions=['real-time pacing / liveness bounds are observed with slack, not proved (partial clause)']),
 }
